@@ -57,6 +57,16 @@ theorem add_span_calendar (y m d : Int) (hy : InRange y) (hv : Valid y m d) (s :
   rw [hsp]
   exact checkedDate_midnight _ _ _ hval
 
+/-- `DateTime ± span` (`DateTime.AddDateSpan` / `SubtractDateSpan`, UTC): for EVERY datetime and all integers
+`months`, `days` the result is the calendar result at the same time of day (no range limit for `DateTime`) -/
+theorem datetime_add_span_calendar (t : Int) (months days : Int) :
+    let c := civilFromDays (DateTime.dayNum t + days)
+    let tot := c.1 * 12 + (c.2.1 - 1) + months
+    DateTime.addMonthsDays t months days =
+      daysFromCivil (tot / 12) (tot % 12 + 1) (min c.2.2 (daysInMonth (tot / 12) (tot % 12 + 1))) * nsPerDay
+        + DateTime.tod t :=
+  addMonthsDays_spec t months days
+
 /-- `Date - span` is `Date + (-span)` on the calendar, with the same range check -/
 theorem sub_span_calendar (y m d : Int) (hy : InRange y) (hv : Valid y m d) (s : DateSpan) :
     Date.subDateSpan (makeDate y m d) s =
